@@ -73,8 +73,60 @@ pub fn pick_opts(rng: &mut Rng) -> (GenOpts, &'static str) {
     }
 }
 
+const LAB_WIDTHS: &[usize] = &[8, 16, 31, 32, 33, 63, 64, 65, 127, 128, 129, 200, 256];
+
+/// "Boundary lab" design: every shift operator with a RUN-TIME count port, compares and
+/// arithmetic at an expression width that sits exactly on a representation boundary.
+/// Every 8th corpus design is one of these (the random designs almost never put a dynamic
+/// shift count exactly at a 64/128-bit expression width).
+fn lab_design(k: u64) -> Design {
+    let mut rng = Rng::for_case(CORPUS_SEED, "C02-lab", k);
+    let w = LAB_WIDTHS[(k as usize) % LAB_WIDTHS.len()];
+    let w1 = *rng.pick(&[w, w, w.saturating_sub(1).max(1), w + 1]);
+    let sw = if w >= 128 { 9 } else { 8 };
+    let s1 = if rng.bool() { "signed " } else { "" };
+    let mut t = String::new();
+    t.push_str("module Top (\n    i_clk: input clock,\n    i_rst: input reset,\n");
+    t.push_str(&format!("    i0: input logic<{w}>,\n    i1: input {s1}logic<{w1}>,\n    i2: input logic<{sw}>,\n    i3: input signed logic<{w}>,\n"));
+    for (k, ow) in [w, w, w, w, w, w, 1, 1, w, w].iter().enumerate() {
+        t.push_str(&format!("    o{k}: output logic<{ow}>,\n"));
+    }
+    t.push_str(") {\n");
+    t.push_str(&format!("    var r0: logic<{w}>;\n    var r1: signed logic<{w}>;\n"));
+    t.push_str("    assign o0 = i0 >> i2;\n    assign o1 = i0 << i2;\n    assign o2 = i3 >>> i2;\n    assign o3 = i3 <<< i2;\n");
+    t.push_str("    assign o4 = (i0 >> i2) + i1;\n    assign o5 = (i0 - i1) ^ (i3 >>> i2);\n");
+    t.push_str("    assign o6 = i3 <: $signed(i1);\n    assign o7 = i0 >= i1;\n");
+    t.push_str("    always_ff {\n        if_reset {\n            r0 = 0;\n            r1 = 0;\n        } else {\n            r0 = r0 ^ (i0 >> i2);\n            r1 = (r1 + i3) >>> i2;\n        }\n    }\n");
+    t.push_str("    assign o8 = r0;\n    assign o9 = r1;\n}\n");
+    let mut d = Design::from_text(&t);
+    d.features = vec!["boundary_lab".into(), format!("lab_width_{w}")];
+    d.has_ff = true;
+    d
+}
+
+/// Stimulus for lab designs: the shift count sits on and around the expression width.
+fn lab_stimulus(d: &Design, rng: &mut Rng, cycles: usize) -> Stimulus {
+    let mut s = stimulus(d, rng, cycles);
+    let w = d.inputs[0].width as u64;
+    for (c, cyc) in s.cycles.iter_mut().enumerate() {
+        if c >= 2 && rng.chance(3, 4) {
+            let sw = cyc.inputs[2].width;
+            let v = *rng.pick(&[0, 1, w - 1, w, w + 1, 2 * w, 63, 64, 65, 127, 128, 129, (1u64 << sw) - 1]);
+            cyc.inputs[2].payload[0] = v & ((1u64 << sw) - 1);
+        }
+    }
+    s
+}
+
+pub fn is_lab(i: u64) -> bool {
+    i % 8 == 7
+}
+
 /// Design #i of the fixed corpus.
 pub fn corpus_design(i: u64) -> (Design, &'static str) {
+    if is_lab(i) {
+        return (lab_design(i / 8), "boundary_lab");
+    }
     let mut rng = Rng::for_case(CORPUS_SEED, "C02-corpus", i);
     let (mut opts, mode) = pick_opts(&mut rng);
     if let Ok(w) = std::env::var("VERIF_MAX_WIDTH") {
@@ -121,8 +173,8 @@ fn trace_row(t: &Trace, c: usize) -> Vec<String> {
 pub fn run_case(seed: u64, i: u64, cycles: usize, with_cc: bool) -> CaseOut {
     let (d, mode) = corpus_design(i);
     let mut rng = Rng::for_case(seed, "C02-stim", i);
-    let stim = stimulus(&d, &mut rng, cycles);
-    run_design(d, mode, stim, with_cc && i % 3 == 0)
+    let stim = if is_lab(i) { lab_stimulus(&d, &mut rng, cycles) } else { stimulus(&d, &mut rng, cycles) };
+    run_design(d, mode, stim, with_cc && (i % 3 == 0 || is_lab(i)))
 }
 
 pub fn run_design(d: Design, mode: &str, stim: Stimulus, with_cc: bool) -> CaseOut {
@@ -252,7 +304,7 @@ pub fn main(args: Args) {
             let want_engine = v["case"]["engine"].as_str().map(|x| x.to_string()).or_else(|| first.failing().first().cloned());
             let want_engine = want_engine.map(|e| e.trim_end_matches(":panic").to_string());
             let mut rng = Rng::for_case(seed, "C02-stim", i);
-            let stim = stimulus(&d0, &mut rng, cyc);
+            let stim = if is_lab(i) { lab_stimulus(&d0, &mut rng, cyc) } else { stimulus(&d0, &mut rng, cyc) };
             let allowed: Vec<String> = first.codes.clone();
             let mut keep = |text: &str| -> bool {
                 let mut d = d0.clone();
@@ -279,7 +331,7 @@ pub fn main(args: Args) {
         run.finish(&[]);
     }
 
-    let n = args.budget("cases", 300, 1200);
+    let n = args.budget("cases", 600, 1200);
     let seed = args.seed;
 
     // `--set record=K`: list every (design, engine) pair that fails under stimulus seeds 0..K
@@ -341,7 +393,13 @@ pub fn main(args: Args) {
     if vg_cases > 0 && args.get("memcheck_child").is_none() {
         memcheck_arm(&run, &args, vg_cases);
     }
-    run.finish(&[("designs_simulated", 150), ("port_value_comparisons", 100_000), ("engines", 8), ("designs_with_ff", 50)]);
+    run.finish(&[
+        ("designs_simulated", 150),
+        ("port_value_comparisons", 100_000),
+        ("engines", 8),
+        ("designs_with_ff", 50),
+        ("mode_boundary_lab", 20),
+    ]);
 }
 
 /// Run this binary on the first `cases` corpus designs under valgrind memcheck and
